@@ -22,7 +22,7 @@ from sim.oracle import missed_tuple, snap, snap_diff
 
 PROPERTY = "C06"
 LEVEL = "exploration"
-RUNS = {"quick": 40000, "thorough": 1000000}
+RUNS = {"quick": 100000, "thorough": 2000000}
 WALL = {"quick": 240, "thorough": 1500}
 PARTITIONS = [{"name": "default", "env": {}}]
 FAULT_KINDS = ["refusal_probe_under_free_arithmetics", "member_changed_directly", "built_from_callers_arrays", "refusal_probe", "fill_between_scalings", "int_dtype_scaled", "numpy_scalar", "chain>=3",
